@@ -68,16 +68,26 @@ KF_back_enclosing(pid, t) ==
        \/ \E o \in TaskKeys(pid) :                     \* what the old instance left behind
             o[1] = u[1] /\ o # u /\ (t \in Continuation(P(pid), o) \/ t \in Desc(P(pid), o))
 
-(* KF_cancel_chain: `cancel` closes the open prev-children of the following *)
-(* step level by level but does not descend through a finished child, so    *)
-(* an act chained behind a finished act (a2 after a1 in one step) stays     *)
-(* open under a step that is marked completed (context.rs:364-393).         *)
-KF_cancel_chain(pid, t) ==
-  /\ ND(pid, t).kind = "act"
-  /\ LET p == TS(pid, t).prev IN
-     /\ p \in TaskKeys(pid) /\ ND(pid, p).kind = "act" /\ IsDone(TS(pid, p).st)
-     /\ \E s \in AncSet(P(pid), t) : ND(pid, s).kind = "step" /\ TS(pid, s).st = "completed"
-                                      /\ \E r \in TaskKeys(pid) : TS(pid, r).redo
+KF_back_enclosing_p(pid) == \E u \in TaskKeys(pid) : RedoOfEnclosing(pid, u)
+(* ... and, once the flow has finished past the re-created step, what the    *)
+(* re-created step does to its (finished) ancestors                          *)
+KF_back_enclosing_anc(pid, t) ==
+  \E u \in TaskKeys(pid) : RedoOfEnclosing(pid, u) /\ t \in AncSet(P(pid), u)
+
+(* KF_action_on_running_act: a terminal client action is admitted on an act  *)
+(* that is RUNNING, i.e. revived by its own catch (or, for generator acts,   *)
+(* waiting for the acts it generated), and closes it over the tasks that    *)
+(* are still open beneath it (task.rs:423-431: only is_completed is         *)
+(* refused).  Explains open tasks beneath an act closed by a client action. *)
+KF_action_on_running_act(pid, u) ==
+  \E a \in AncSet(P(pid), u) : ND(pid, a).kind = "act" /\ TS(pid, a).okterm >= 1
+
+(* KF_alive_after_error: an error that ends the process (error event        *)
+(* delivered) does not stop the other branches of a multi-branch step.  They *)
+(* run on and stay actionable: a later error climbs the failed ancestors     *)
+(* again (second error event), a later abort rewrites them to aborted and    *)
+(* delivers a complete event after the error event (context.rs:327-441).     *)
+KF_alive_after_error(pid) == procs[pid].ev.first = "error" /\ procs[pid].ev.start = 1
 
 (* KF_nested_review_dup: a step whose review (or next) resumes a pending    *)
 (* else/needs branch that has no steps: the branch finishes inline, reviews *)
@@ -102,7 +112,11 @@ V_C01_QuiescentOK ==
 (* C02 — only legal transitions; every write is judged where it happens      *)
 (* (Acts!SetStVia / the observed write events) and collected in `viol`.      *)
 V_C02_Lifecycle ==
-  UNION { { V("C02_Lifecycle", pid, w.t, {}) : w \in procs[pid].viol } :
+  UNION { { V("C02_Lifecycle", pid, w.t,
+              {k \in {"KF_alive_after_error"} :
+                 KF_alive_after_error(pid) /\ w.old = "error" /\ ND(pid, w.t).kind # "act"}
+              \cup {k \in {"KF_back_enclosing"} : KF_back_enclosing_anc(pid, w.t)})
+            : w \in procs[pid].viol } :
           pid \in { q \in Pids : Started(q) } }
 
 -----------------------------------------------------------------------------
@@ -110,7 +124,7 @@ V_C02_Lifecycle ==
 V_C03_ParentDone ==
   UNION { UNION { { V("C03_ParentDone", pid, u,
                       {k \in {"KF_back_enclosing"} : KF_back_enclosing(pid, u)}
-                      \cup {k \in {"KF_cancel_chain"} : KF_cancel_chain(pid, u)})
+                      \cup {k \in {"KF_action_on_running_act"} : KF_action_on_running_act(pid, u)})
                     : u \in { x \in Desc(P(pid), t) : ~IsDone(TS(pid, x).st) } }
                   : t \in { x \in TaskKeys(pid) : TS(pid, x).st = "completed" } }
           : pid \in LivePids }
@@ -124,7 +138,8 @@ V_C03_ProcMirrorsRoot ==
                  /\ P(q).ps # TS(q, root).st } }
 
 V_C03_Events ==
-  { V("C03_Events", pid, NoKey, {}) :
+  { V("C03_Events", pid, NoKey, {k \in {"KF_alive_after_error"} : KF_alive_after_error(pid)}
+                                     \cup {k \in {"KF_back_enclosing"} : KF_back_enclosing_p(pid)}) :
       pid \in { q \in Pids :
                  /\ Started(q)
                  /\ LET ev == procs[q].ev IN
@@ -141,7 +156,7 @@ V_C03_TerminalEvent ==
 V_C03_CleanEnding ==
   UNION { { V("C03_CleanEnding", pid, t,
               {k \in {"KF_back_enclosing"} : KF_back_enclosing(pid, t)}
-              \cup {k \in {"KF_cancel_chain"} : KF_cancel_chain(pid, t)})
+              \cup {k \in {"KF_action_on_running_act"} : KF_action_on_running_act(pid, t)})
             : t \in { x \in TaskKeys(pid) : ~IsDone(TS(pid, x).st) } }
           : pid \in { q \in LivePids : procs[q].ev.kinds = {"complete"} } }
 
